@@ -3,6 +3,7 @@ package checks
 import (
 	"encoding/json"
 	"fmt"
+	"os"
 	"strings"
 
 	"github.com/snower/slock/protocol"
@@ -18,11 +19,12 @@ type c13Stream struct {
 	Name     string   `json:"n"`
 	Setup    [][]byte `json:"s,omitempty"` // sent first on a separate connection (builds key state)
 	Chunks   [][]byte `json:"c"`
-	RoleOnly bool     `json:"r,omitempty"` // the stream legitimately changes the node's role: only "no crash" is judged
-	Expect   int      `json:"e,omitempty"` // >0: number of reply bytes the attacker connection must receive
-	Follower bool     `json:"f,omitempty"` // the stream (and the witness) go to a follower of a live leader: requests are forwarded
+	RoleOnly bool     `json:"r,omitempty"`  // the stream legitimately changes the node's role: only "no crash" is judged
+	Expect   int      `json:"e,omitempty"`  // >0: number of reply bytes the attacker connection must receive
+	Follower bool     `json:"f,omitempty"`  // the stream (and the witness) go to a follower of a live leader: requests are forwarded
+	HB       bool     `json:"hb,omitempty"` // track happens-before and report unordered map accesses (the pair the Go runtime kills the process for)
 	Settle   int64    `json:"st,omitempty"` // >0: virtual ns to let pass after the stream (default 300 ms): sweepers and timers run meanwhile
-	After    [][]byte `json:"a,omitempty"` // sent after the stream, each on a connection of its own (readers of what the stream left behind)
+	After    [][]byte `json:"a,omitempty"`  // sent after the stream, each on a connection of its own (readers of what the stream left behind)
 }
 
 func c13Cfg() hapi.Config { return hapi.Config{FastKeys: 4, Concurrent: 1} }
@@ -30,7 +32,7 @@ func c13Cfg() hapi.Config { return hapi.Config{FastKeys: 4, Concurrent: 1} }
 // runStream plays one stream against a fresh full node and reports a violation description or "".
 func runStream(st *c13Stream) (viol *explore.Violation, obs string, engErr string) {
 	var witnessMsg string
-	rt := vrt.Run(vrt.Options{MaxPoints: 30_000_000}, func() {
+	rt := vrt.Run(vrt.Options{MaxPoints: 30_000_000, HB: true}, func() {
 		addr := "127.0.0.1:5658"
 		if st.Follower {
 			cl, err := StartLeaderFollowers(1, nil)
@@ -142,6 +144,9 @@ func runStream(st *c13Stream) (viol *explore.Violation, obs string, engErr strin
 	}
 	if rt.Deadlock != "" {
 		return &explore.Violation{Sig: "C13:deadlock", Msg: rt.Deadlock}, obs, ""
+	}
+	if mr := rt.MapRaceReport(); mr != "" {
+		return &explore.Violation{Sig: "C13:concurrent-map-access", Msg: "two connections' handlers access a map without an ordering between them (a Go process dies with 'fatal error: concurrent map ...' when the two meet): " + mr}, obs, ""
 	}
 	if witnessMsg != "" {
 		return &explore.Violation{Sig: "C13:other-connection-affected", Msg: witnessMsg}, obs, ""
@@ -854,6 +859,39 @@ func c13AckBesideLogHolderStreams(quick bool) []c13Stream {
 	return out
 }
 
+// c13ListingVsWritersStreams: keys 1, 5, 9 share a fast slot (4 slots), so 5 and 9 live in the slow-key map. One
+// connection has taken them; the attacker connection then runs a listing / inspection command (text and binary
+// forms); afterwards other connections release key 5 and take key 13 (a delete from and an insert into that map)
+// and take a key of another database. The run tracks happens-before: a listing that reads a shared map without
+// being ordered before the later writes is reported, whatever the timing.
+func c13ListingVsWritersStreams(quick bool) []c13Stream {
+	var out []c13Stream
+	kf := func(t uint8, key, id byte) []byte {
+		b := lockFrame(t, 0, 0, 0, 0, 60, 0, 0, 0)
+		b[36], b[52] = id, key
+		return b
+	}
+	setup := [][]byte{kf(1, 1, 1), kf(1, 5, 1), kf(1, 9, 1)}
+	after := [][]byte{kf(2, 5, 1), kf(1, 13, 2), func() []byte { b := kf(1, 5, 3); b[20] = 2; return b }(), wire.Resp("SET", "lv", "x"), wire.Resp("DEL", "lv")}
+	var cmds [][]byte
+	for _, t := range [][]string{{"KEYS", "*"}, {"KEYS", "nokey*"}, {"SCAN", "0"}, {"SCAN", "0", "MATCH", "*", "COUNT", "10"}, {"SHOW", "DBS"}, {"SHOW", "LOCKS"}, {"SHOW", "LOCK", "a"}, {"SHOW", "WAIT", "a"}, {"SHOW", "CLIENTS"}, {"INFO"}, {"CLIENT", "LIST"}, {"TYPE", "a"}, {"EXISTS", "a"}, {"DUMP", "a"}, {"TTL", "a"}, {"CONFIG", "GET", "*"}} {
+		cmds = append(cmds, wire.Resp(t...))
+	}
+	for _, m := range []string{"LIST_LOCK", "LIST_LOCKED", "LIST_WAIT"} {
+		for _, content := range [][]byte{nil, {0x08, 0x00}, {0x08, 0x00, 0x12, 0x10, 0, 0, 0, 0, 0, 0, 0, 0, 0, 0, 0, 0, 0, 0, 0, 5}} {
+			cc := protocol.NewCallCommand(m, content)
+			b := make([]byte, 64)
+			_ = cc.Encode(b)
+			cmds = append(cmds, append(b, content...))
+		}
+	}
+	for i, cmd := range cmds {
+		st := c13Stream{Name: fmt.Sprintf("listing-vs-writers/%d", i), Setup: setup, Chunks: [][]byte{cmd}, After: after, HB: true}
+		out = append(out, st)
+	}
+	return out
+}
+
 // c13NestedValueStreams: an EXECUTE operation whose embedded LOCK carries a value frame of its own. Three lengths
 // meet: the outer frame's, the embedded frame's and the property block's inside it. Every combination of embedded
 // length x property length (inside / at the end of / beyond the embedded frame, beyond the outer frame) x padding
@@ -922,6 +960,8 @@ func c13Group(name string, quick bool) []c13Stream {
 		return c13SyncHandshakeStreams(quick)
 	case "ack-beside-log-holder":
 		return c13AckBesideLogHolderStreams(quick)
+	case "listing-vs-writers":
+		return c13ListingVsWritersStreams(quick)
 	case "handover":
 		return c13HandoverStreams(quick)
 	case "input-edge":
@@ -942,7 +982,7 @@ func c13Group(name string, quick bool) []c13Stream {
 
 func c13Cases(quick bool) []EnumCase {
 	var out []EnumCase
-	for _, g := range []string{"binary", "text", "split", "pipeline", "keystate", "handover", "input-edge", "follower", "nested-value", "sync-handshake", "ack-beside-log-holder"} {
+	for _, g := range []string{"binary", "text", "split", "pipeline", "keystate", "handover", "input-edge", "follower", "nested-value", "sync-handshake", "ack-beside-log-holder", "listing-vs-writers"} {
 		n := len(c13Group(g, quick))
 		chunk := 60
 		for f := 0; f < n; f += chunk {
